@@ -65,6 +65,11 @@ class Cache:
             return Cache._cache[ref]
         else:
             data = self.func(*args, **kwargs)
+            # The very same objects are returned by later calls. Make
+            # sure they cannot be modified in-place by the caller.
+            for item in (data if isinstance(data, (tuple, list)) else [data]):
+                if isinstance(item, np.ndarray):
+                    item.setflags(write=False)
             Cache._cache[ref] = data
             Cache._keys.append(ref)
             if len(Cache._keys) > MAX_SIZE:
